@@ -13,8 +13,8 @@ PROP = {
             "re-packaging - all lanes are pairwise different bit patterns (so any permutation shows); mask - the mask is neither all-true nor all-false. "
             "Distinct = distinct hash of (backend, conversion, lane bits) for generated cases; enumerated cases are counted by index.",
     "builds": {
-        "quick": [B("stable"), B("nightly", 0.25, False)],
-        "thorough": [B("stable"), B("nightly", 0.5, False)],
+        "quick": [B("stable"), B("fma", 0.25), B("nightly", 0.25, False)],
+        "thorough": [B("stable"), B("fma", 0.5), B("nightly", 0.5, False)],
     },
     "timeout": {"quick": 900, "thorough": 5400},
     "technique": "property-based testing over a conversion table generated from the source tree: enumerated boundary/exhaustive lane values, an f32 bit-pattern sweep and proptest lattice cases, "
